@@ -1,6 +1,6 @@
 (* C17 correspondence (harness/c17.go): histories of connections, disconnect/ban requests, direct ban additions,
    departures and restarts on a real server; instants are the harness's clock readings.
-   op 1 connect   args tok, ip, protected?, now        obs [status 4 admitted | 3 refused permanently | 5 refused temporarily;
+   op 1 connect   args tok, ip, protected?, now        obs [status 4 let in | 3 refused permanently | 5 refused temporarily;
                                                             every byte the refused peer received (notice ID zeroed)]
    op 2 kick      args target tok, options, now        obs [reply 0 ok | 1 error; target closed?; toks told (ascending);
                                                             notice shown to the target 0|1|2; ban entry as requested?]
@@ -27,7 +27,7 @@ Definition ev_of (o : dop) : option ev :=
   end.
 Definition render (e : ev) (o : out) : list (list N) :=
   match o with
-  | OAdmitted => [[4]; []]
+  | OLetIn => [[4]; []]
   | ORefused p => [[if p then 3 else 5]; HS_REPLY ++ ban_notice p]
   | OKicked told =>
       let notice := match e with EKick _ (Some 1) _ => 1 | EKick _ (Some 2) _ => 2 | _ => 0 end in
